@@ -224,6 +224,162 @@ fn fix_sizes(f: &mut Frame) {
 	}
 }
 
+fn refusal_kind(f: &Frame) -> &'static str {
+	if !f.magic {
+		"bad_magic"
+	} else if f.k == "raw" && f.len == 65 {
+		"over_limit"
+	} else if f.k == "headers" && f.count as usize != f.items {
+		"bad_count"
+	} else {
+		""
+	}
+}
+
+struct SeqPlan {
+	id: usize,
+	frames: Vec<Frame>,
+	kinds: Vec<String>,
+	version: u32,
+	ncuts: usize,
+	cutseed: u64,
+	/// index of the TLC-emitted case this sequence was taken from (-1: drawn here)
+	case: i64,
+}
+
+/// One sequence through the real `conn::listen`: events Reset, Deliver*, Closed.
+fn run_seq(p: &SeqPlan, pool: &Pool, tmp: &str) -> Result<Vec<Value>, String> {
+	let (id, frames, version) = (p.id, &p.frames, p.version);
+	let io = |e: std::io::Error| e.to_string();
+	let sent: Vec<Sent> = frames.iter().enumerate().map(|(fi, f)| render(f, fi, pool)).collect();
+	let stream: Vec<u8> = sent.iter().flat_map(|s| s.bytes.iter().cloned()).collect();
+	let mut sb = [0u8; 32];
+	sb[..8].copy_from_slice(&p.cutseed.to_le_bytes());
+	let mut rng: StdRng = SeedableRng::from_seed(sb);
+	let mut cuts: Vec<usize> = (0..p.ncuts).map(|_| rng.gen_range(1, stream.len().max(2))).collect();
+	cuts.sort();
+	cuts.dedup();
+	let l = TcpListener::bind("127.0.0.1:0").map_err(io)?;
+	let mut w = TcpStream::connect(l.local_addr().map_err(io)?).map_err(io)?;
+	w.set_nodelay(true).map_err(io)?;
+	let (r, _) = l.accept().map_err(io)?;
+	let log = Arc::new(Mutex::new(vec![]));
+	let (_conn, stop) = listen(
+		r,
+		ProtocolVersion(version),
+		Arc::new(Tracker::new()),
+		Recorder {
+			log: log.clone(),
+			dir: tmp.to_string(),
+			id,
+		},
+	)
+	.map_err(io)?;
+	let mut start = 0;
+	cuts.push(stream.len());
+	for c in cuts.iter() {
+		let c = (*c).min(stream.len());
+		if c > start {
+			if w.write_all(&stream[start..c]).is_err() {
+				break; // the reader closed after a refusal
+			}
+			start = c;
+		}
+		thread::sleep(Duration::from_micros(rng.gen_range(0, 3000)));
+	}
+	// Does the reader end the connection by itself?  (A stream with a frame that must be refused:
+	// wait for it; the waiting time does not enter the verdict, only whether the socket was closed
+	// while our side was still open.)
+	let expect_close = p.kinds.iter().any(|k| !k.is_empty());
+	let mut buf = [0u8; 256];
+	let wait_closed = |w: &mut TcpStream, d: Duration, buf: &mut [u8]| -> bool {
+		let _ = w.set_read_timeout(Some(d));
+		loop {
+			match w.read(buf) {
+				Ok(0) => return true,
+				Ok(_) => {}
+				Err(e) => return e.kind() == std::io::ErrorKind::ConnectionReset || e.kind() == std::io::ErrorKind::BrokenPipe,
+			}
+		}
+	};
+	let before_eof = wait_closed(&mut w, if expect_close { Duration::from_secs(8) } else { Duration::from_millis(30) }, &mut buf);
+	let mut closed = before_eof;
+	if !closed {
+		let _ = w.shutdown(Shutdown::Write);
+		// the read loop ends on end-of-stream and shuts the socket down
+		closed = wait_closed(&mut w, Duration::from_secs(20), &mut buf);
+	}
+	stop.stop();
+	// events: the sequence, the deliveries (batches / chunks merged per frame), the end
+	let mut ev = vec![json!({"k": "Reset", "id": id, "version": version, "case": p.case, "kinds": p.kinds,
+		"frames": frames.iter().map(frame_json).collect::<Vec<_>>()})];
+	let log = log.lock().unwrap();
+	let mut i = 0;
+	// frame index of the next delivery: walk the frames that deliver something
+	while i < log.len() {
+		let e = &log[i];
+		let r = e["r"].as_str().unwrap();
+		if r == "headers" || r == "att" {
+			// merge the run that belongs to one list / one attachment
+			let mut n = 0u64;
+			let mut ok = true;
+			let mut hashes: Vec<Value> = vec![];
+			let mut rem;
+			loop {
+				let x = &log[i];
+				n += x["n"].as_u64().unwrap();
+				rem = x["rem"].as_u64().unwrap();
+				if r == "headers" {
+					hashes.extend(x["hashes"].as_array().unwrap().iter().cloned());
+				}
+				i += 1;
+				if rem == 0 || i >= log.len() || log[i]["r"] != json!(r) {
+					break;
+				}
+				// bookkeeping: what remains after this batch is what the following ones carry
+				let next_total: u64 = log[i]["n"].as_u64().unwrap() + log[i]["rem"].as_u64().unwrap();
+				ok = ok && rem == next_total;
+			}
+			let mut content_ok = ok;
+			if r == "headers" {
+				// the list must be the carried headers of some Headers frame, in order
+				content_ok = content_ok
+					&& sent.iter().any(|s| {
+						s.hashes.len() >= hashes.len()
+							&& s.hashes[..hashes.len()]
+								.iter()
+								.zip(hashes.iter())
+								.all(|(a, b)| json!(a) == *b)
+					});
+			}
+			ev.push(json!({"k": "Deliver", "r": r, "t": e["t"], "n": n, "rem": rem, "ok": content_ok}));
+		} else {
+			let t = e["t"].as_u64().unwrap() as u8;
+			let content_ok = sent
+				.iter()
+				.zip(frames.iter())
+				.any(|(s, f)| f.t == t && s.digest == e["digest"].as_str().unwrap_or(""));
+			ev.push(json!({"k": "Deliver", "r": "msg", "t": t, "n": e["n"], "rem": 0, "ok": content_ok}));
+			i += 1;
+		}
+	}
+	// attachment files hold exactly the streamed bytes
+	let mut files_ok = true;
+	let mut k = 0;
+	for (fi, f) in frames.iter().enumerate() {
+		if f.t == 17 && f.k == "archive" {
+			let path = format!("{}/listen_att_{}_{}.bin", tmp, id, k);
+			k += 1;
+			if let Ok(b) = fs::read(&path) {
+				files_ok = files_ok && b == sent[fi].att;
+				let _ = fs::remove_file(&path);
+			}
+		}
+	}
+	ev.push(json!({"k": "Closed", "closed": closed, "before_eof": before_eof, "files_ok": files_ok, "deliveries": log.len()}));
+	Ok(ev)
+}
+
 pub fn record(args: &Args) -> i32 {
 	let seed = args.u64("seed", 1);
 	let nseq = args.u64("seqs", 16) as usize;
@@ -234,168 +390,107 @@ pub fn record(args: &Args) -> i32 {
 	seedb[31] = 0xb;
 	let mut rng: StdRng = SeedableRng::from_seed(seedb);
 	// plan all sequences first (deterministic in the seed), then run them in parallel
-	let mut plans = vec![];
+	let mut plans: Vec<SeqPlan> = vec![];
 	for id in 0..nseq {
 		let n = rng.gen_range(1, 6);
-		let mut frames: Vec<Frame> = (0..n).map(|i| random_frame(&mut rng, i + 1 == n)).collect();
+		// a frame that must end the connection: as the last one, now and then in the middle
+		let mut frames: Vec<Frame> = (0..n)
+			.map(|i| {
+				let bad_ok = i + 1 == n || rng.gen_range(0, 5) == 0;
+				random_frame(&mut rng, bad_ok)
+			})
+			.collect();
 		frames.iter_mut().for_each(fix_sizes);
 		let version = crate::run::VERSIONS[rng.gen_range(0, 4)];
 		let ncuts = rng.gen_range(0, 6);
 		let cutseed: u64 = rng.gen();
-		plans.push((id, frames, version, ncuts, cutseed));
+		let kinds = frames.iter().map(|f| refusal_kind(f).to_string()).collect();
+		plans.push(SeqPlan {
+			id,
+			frames,
+			kinds,
+			version,
+			ncuts,
+			cutseed,
+			case: -1,
+		});
 	}
-	let mut handles = vec![];
-	for (id, frames, version, ncuts, cutseed) in plans {
-		let pool = pool.clone();
-		let tmp = tmp.clone();
-		handles.push(thread::spawn(move || -> Result<Vec<Value>, String> {
-			let io = |e: std::io::Error| e.to_string();
-			let sent: Vec<Sent> = frames.iter().enumerate().map(|(fi, f)| render(f, fi, &pool)).collect();
-			let stream: Vec<u8> = sent.iter().flat_map(|s| s.bytes.iter().cloned()).collect();
-			let mut sb = [0u8; 32];
-			sb[..8].copy_from_slice(&cutseed.to_le_bytes());
-			let mut rng: StdRng = SeedableRng::from_seed(sb);
-			let mut cuts: Vec<usize> = (0..ncuts).map(|_| rng.gen_range(1, stream.len().max(2))).collect();
-			cuts.sort();
-			cuts.dedup();
-			let l = TcpListener::bind("127.0.0.1:0").map_err(io)?;
-			let mut w = TcpStream::connect(l.local_addr().map_err(io)?).map_err(io)?;
-			w.set_nodelay(true).map_err(io)?;
-			let (r, _) = l.accept().map_err(io)?;
-			let log = Arc::new(Mutex::new(vec![]));
-			let (_conn, stop) = listen(
-				r,
-				ProtocolVersion(version),
-				Arc::new(Tracker::new()),
-				Recorder {
-					log: log.clone(),
-					dir: tmp.clone(),
+	// streams emitted by TLC (MC_Codec: a refused frame followed by valid ones, ...): each in one
+	// write and under a seeded fragmentation
+	let mut from_model = 0;
+	if let Some(cp) = args.get("cases") {
+		for (ci, v) in read_ndjson(cp).iter().enumerate() {
+			let frames: Vec<Frame> = v["frames"].as_array().unwrap().iter().map(Frame::from_json).collect();
+			let kinds: Vec<String> = v["kinds"]
+				.as_array()
+				.map(|a| a.iter().map(|x| x.as_str().unwrap_or("").to_string()).collect())
+				.unwrap_or_else(|| frames.iter().map(|_| String::new()).collect());
+			for rep in 0..2 {
+				let id = plans.len();
+				plans.push(SeqPlan {
 					id,
-				},
-			)
-			.map_err(io)?;
-			let mut start = 0;
-			cuts.push(stream.len());
-			for c in cuts.iter() {
-				let c = (*c).min(stream.len());
-				if c > start {
-					if w.write_all(&stream[start..c]).is_err() {
-						break; // the reader closed after a refusal
-					}
-					start = c;
-				}
-				thread::sleep(Duration::from_micros(rng.gen_range(0, 3000)));
+					frames: frames.clone(),
+					kinds: kinds.clone(),
+					version: crate::run::VERSIONS[(ci + rep) % 4],
+					ncuts: if rep == 0 { 0 } else { rng.gen_range(1, 5) },
+					cutseed: rng.gen(),
+					case: v["case_id"].as_i64().unwrap_or(ci as i64),
+				});
+				from_model += 1;
 			}
-			let _ = w.shutdown(Shutdown::Write);
-			// the read loop ends on end-of-stream (or on the refusal) and shuts the socket down
-			let _ = w.set_read_timeout(Some(Duration::from_secs(20)));
-			let mut buf = [0u8; 256];
-			let closed;
-			loop {
-				match w.read(&mut buf) {
-					Ok(0) => {
-						closed = true;
-						break;
-					}
-					Ok(_) => {}
-					Err(e) => {
-						closed = e.kind() == std::io::ErrorKind::ConnectionReset;
-						break;
-					}
-				}
+		}
+	}
+	let total = plans.len();
+	let plans = Arc::new(plans);
+	let next = Arc::new(std::sync::atomic::AtomicUsize::new(0));
+	let results: Arc<Mutex<Vec<(usize, Result<Vec<Value>, String>)>>> = Arc::new(Mutex::new(vec![]));
+	let mut handles = vec![];
+	for _ in 0..total.min(32) {
+		let (plans, next, results, pool, tmp) = (plans.clone(), next.clone(), results.clone(), pool.clone(), tmp.clone());
+		handles.push(thread::spawn(move || loop {
+			let j = next.fetch_add(1, std::sync::atomic::Ordering::SeqCst);
+			if j >= plans.len() {
+				break;
 			}
-			stop.stop();
-			// events: the sequence, the deliveries (batches / chunks merged per frame), the end
-			let mut ev = vec![json!({"k": "Reset", "id": id, "version": version,
-				"frames": frames.iter().map(frame_json).collect::<Vec<_>>()})];
-			let log = log.lock().unwrap();
-			let mut i = 0;
-			// frame index of the next delivery: walk the frames that deliver something
-			while i < log.len() {
-				let e = &log[i];
-				let r = e["r"].as_str().unwrap();
-				if r == "headers" || r == "att" {
-					// merge the run that belongs to one list / one attachment
-					let mut n = 0u64;
-					let mut ok = true;
-					let mut hashes: Vec<Value> = vec![];
-					let mut rem;
-					loop {
-						let x = &log[i];
-						n += x["n"].as_u64().unwrap();
-						rem = x["rem"].as_u64().unwrap();
-						if r == "headers" {
-							hashes.extend(x["hashes"].as_array().unwrap().iter().cloned());
-						}
-						i += 1;
-						if rem == 0 || i >= log.len() || log[i]["r"] != json!(r) {
-							break;
-						}
-						// bookkeeping: what remains after this batch is what the following ones carry
-						let next_total: u64 = log[i]["n"].as_u64().unwrap() + log[i]["rem"].as_u64().unwrap();
-						ok = ok && rem == next_total;
-					}
-					let mut content_ok = ok;
-					if r == "headers" {
-						// the list must be the carried headers of some Headers frame, in order
-						content_ok = content_ok
-							&& sent.iter().any(|s| {
-								s.hashes.len() >= hashes.len()
-									&& s.hashes[..hashes.len()]
-										.iter()
-										.zip(hashes.iter())
-										.all(|(a, b)| json!(a) == *b)
-							});
-					}
-					ev.push(json!({"k": "Deliver", "r": r, "t": e["t"], "n": n, "rem": rem, "ok": content_ok}));
-				} else {
-					let t = e["t"].as_u64().unwrap() as u8;
-					let content_ok = sent
-						.iter()
-						.zip(frames.iter())
-						.any(|(s, f)| f.t == t && s.digest == e["digest"].as_str().unwrap_or(""));
-					ev.push(json!({"k": "Deliver", "r": "msg", "t": t, "n": e["n"], "rem": 0, "ok": content_ok}));
-					i += 1;
-				}
-			}
-			// attachment files hold exactly the streamed bytes
-			let mut files_ok = true;
-			let mut k = 0;
-			for (fi, f) in frames.iter().enumerate() {
-				if f.t == 17 && f.k == "archive" {
-					let path = format!("{}/listen_att_{}_{}.bin", tmp, id, k);
-					k += 1;
-					if let Ok(b) = fs::read(&path) {
-						files_ok = files_ok && b == sent[fi].att;
-						let _ = fs::remove_file(&path);
-					}
-				}
-			}
-			ev.push(json!({"k": "Closed", "closed": closed, "files_ok": files_ok, "deliveries": log.len()}));
-			Ok(ev)
+			let r = run_seq(&plans[j], &pool, &tmp);
+			results.lock().unwrap().push((j, r));
 		}));
 	}
-	let mut out = NdWriter::create(args.req("out"));
 	let mut failed = 0;
-	let mut deliveries = 0;
 	for h in handles {
-		match h.join() {
-			Ok(Ok(ev)) => {
+		if h.join().is_err() {
+			failed += 1;
+		}
+	}
+	let mut out = NdWriter::create(args.req("out"));
+	let mut deliveries = 0;
+	let mut res = results.lock().unwrap();
+	res.sort_by_key(|x| x.0);
+	let mut closed_by_reader = 0;
+	for (_, r) in res.iter() {
+		match r {
+			Ok(ev) => {
 				deliveries += ev.len() - 2;
+				if ev.last().map(|e| e["before_eof"] == json!(true)).unwrap_or(false) {
+					closed_by_reader += 1;
+				}
 				for e in ev {
-					out.put(&e);
+					out.put(e);
 				}
 			}
-			Ok(Err(e)) => {
+			Err(e) => {
 				eprintln!("record: {}", e);
 				failed += 1;
 			}
-			Err(_) => failed += 1,
 		}
 	}
 	let n = out.n;
 	out.finish();
-	println!("{}", json!({"sequences": nseq, "events": n, "merged_deliveries": deliveries, "io_failures": failed}));
+	println!(
+		"{}",
+		json!({"sequences": total, "random_sequences": nseq, "model_sequences": from_model, "events": n,
+			"merged_deliveries": deliveries, "closed_by_reader_before_eof": closed_by_reader, "io_failures": failed})
+	);
 	if failed > 0 {
 		return 2;
 	}
